@@ -6,6 +6,7 @@ import (
 	"fmt"
 	"math"
 	"math/big"
+	"strings"
 	"sync"
 
 	"verif/kit"
@@ -199,7 +200,9 @@ type c02case struct {
 
 func c02eval(r *Rec, mu *sync.Mutex, v *lh.VerifNode, cm int, proof []byte, block interfaces.Block, prev []byte, soft bool, d *c02desc, class string) (accepted bool) {
 	var err error
-	p := guard(func() { err = v.W.ValidateBlockConsensus(context.Background(), block, proof, block0(block), prev, soft) })
+	p := guard(func() {
+		err = v.W.ValidateBlockConsensus(context.Background(), block, proof, block0(block), prev, soft)
+	})
 	var ids []primitives.MemberId
 	p2 := guard(func() { ids, _ = lh.GetMemberIdsFromBlockProof(proof) })
 	want, why := c02ref(c02committees[cm], proof, block, prev, soft)
@@ -355,6 +358,25 @@ func c02(r *Rec, replay map[string]interface{}) {
 	close(jobs)
 	wg.Wait()
 	structured := r.Evals
+	byteAccepted := c02bytes(r, &mu, validators)
+	r.Extra["structured_cases"] = structured
+	r.Extra["byte_level_cases"] = r.Evals - structured
+	r.Extra["accepted_structured"] = accepted
+	r.Extra["accepted_byte_level"] = byteAccepted
+	r.Extra["full_product"] = full
+	r.Assume = []string{"harness key manager: signatures are unforgeable keyed hashes; aggregated seed signature verifies against the master key", "field values are drawn from boundary classes"}
+	_ = big.NewInt
+}
+
+func minU(a, b uint64) uint64 {
+	if a < b {
+		return a
+	}
+	return b
+}
+
+// c02bytes: byte-level half (also run as C12's API part): every truncation and single-byte mutation of base proofs.
+func c02bytes(r *Rec, mup *sync.Mutex, validators []*lh.VerifNode) int {
 	// ---- byte level
 	bases := []c02desc{
 		{0, 0b0111, "none", 3, true, 0, true, 0, "valid", "nil", false, false},
@@ -370,7 +392,7 @@ func c02(r *Rec, replay map[string]interface{}) {
 		proof, blk, prev := c02build(d)
 		v := validators[d.Committee]
 		for l := 0; l <= len(proof); l++ {
-			if c02eval(r, &mu, v, d.Committee, append([]byte{}, proof[:l]...), blk, prev, d.Soft, nil, fmt.Sprintf("trunc/b%d/%d", bi, l)) {
+			if c02eval(r, mup, v, d.Committee, append([]byte{}, proof[:l]...), blk, prev, d.Soft, nil, fmt.Sprintf("trunc/b%d/%d", bi, l)) {
 				byteAccepted++
 			}
 		}
@@ -381,7 +403,7 @@ func c02(r *Rec, replay map[string]interface{}) {
 				if m[off] == proof[off] {
 					continue
 				}
-				if c02eval(r, &mu, v, d.Committee, m, blk, prev, d.Soft, nil, fmt.Sprintf("mut/b%d/%d/%d", bi, off, k)) {
+				if c02eval(r, mup, v, d.Committee, m, blk, prev, d.Soft, nil, fmt.Sprintf("mut/b%d/%d/%d", bi, off, k)) {
 					byteAccepted++
 				}
 			}
@@ -390,21 +412,36 @@ func c02(r *Rec, replay map[string]interface{}) {
 		for off := 0; off < len(prev); off++ {
 			m := append([]byte{}, prev...)
 			m[off] ^= 0xff
-			c02eval(r, &mu, v, d.Committee, proof, blk, m, d.Soft, nil, fmt.Sprintf("prevmut/b%d/%d", bi, off))
+			c02eval(r, mup, v, d.Committee, proof, blk, m, d.Soft, nil, fmt.Sprintf("prevmut/b%d/%d", bi, off))
 		}
 	}
-	r.Extra["structured_cases"] = structured
-	r.Extra["byte_level_cases"] = r.Evals - structured
-	r.Extra["accepted_structured"] = accepted
-	r.Extra["accepted_byte_level"] = byteAccepted
-	r.Extra["full_product"] = full
-	r.Assume = []string{"harness key manager: signatures are unforgeable keyed hashes; aggregated seed signature verifies against the master key", "field values are drawn from boundary classes"}
-	_ = big.NewInt
+	return byteAccepted
 }
 
-func minU(a, b uint64) uint64 {
-	if a < b {
-		return a
+func init() { checks["C12:api"] = c12api }
+
+// C12 (API half): ValidateBlockConsensus and GetMemberIdsFromBlockProof tolerate every byte string.
+func c12api(r *Rec, replay map[string]interface{}) {
+	r.Rule = "every truncation and every offset x {0x00,0xFF,+1,-1} mutation of six base block proofs (and of the previous proof) through ValidateBlockConsensus (strict and soft) and GetMemberIdsFromBlockProof; plus nil / empty / one-byte proofs and nil block: no panic, and acceptance only of genuine certificates. distinct_nontrivial = distinct mutated byte strings"
+	validators := make([]*lh.VerifNode, len(c02committees))
+	for i, c := range c02committees {
+		validators[i] = c02validator(c)
 	}
-	return b
+	var mu sync.Mutex
+	if replay != nil {
+		c02(r, replay)
+		return
+	}
+	c02bytes(r, &mu, validators)
+	for _, p := range [][]byte{nil, {}, {0}, {0xff}, {1, 2, 3, 4, 5, 6, 7, 8}} {
+		for _, soft := range []bool{false, true} {
+			c02eval(r, &mu, validators[0], 0, p, kit.NewBlock(c02height, "B"), nil, soft, nil, fmt.Sprintf("tiny/%x/%v", p, soft))
+			c02eval(r, &mu, validators[0], 0, p, nil, nil, soft, nil, fmt.Sprintf("tiny-nilblock/%x/%v", p, soft))
+		}
+	}
+	r.Sample(map[string]interface{}{"case": "truncation of a valid 4-member proof to 17 bytes", "expect": "error, no panic"})
+	// relabel for C12
+	for i := range r.Viol {
+		r.Viol[i].FP = strings.Replace(r.Viol[i].FP, "C02:", "C12:api-", 1)
+	}
 }
